@@ -1,2 +1,51 @@
-(* C08 -- placeholder *)
-From NV Require Import Model.Boxcar.
+(* C08 -- The injector's item vector is a linearizable append-only sequence.
+   Statements in Spec/BoxcarStatements.v, proofs in Proofs/BoxcarFacts.v (one inductive invariant over
+   the yield-point-granular interleaving model Model/Boxcar.v).  Quantification: every well-formed
+   history - any number of threads doing push / extend of any batch size (crossing buckets, iterators
+   reporting a wrong length, panicking fills), get, count, snapshot, in every interleaving, for any
+   initial capacity.  Linearization points: the fetch_add for a reservation (C08_reserve: the next free
+   indices, distinct and gap-free), the store of `active` for publication (C08_push_visible), the load of
+   `active` for a lookup (C08_no_phantom, C08_stable).  Sequential consistency is assumed here; the
+   release/acquire argument is C09's. *)
+From Coq Require Import NArith List Bool.
+From NV Require Import Model.Boxcar Spec.BoxcarStatements Proofs.BoxcarFacts.
+Import ListNotations.
+Local Open Scope N_scope.
+
+Theorem C08_location : C08_location_stmt.
+Proof. exact BoxcarFacts.C08_location. Qed.
+Theorem C08_location_inj : C08_location_inj_stmt.
+Proof. exact BoxcarFacts.C08_location_inj. Qed.
+Theorem C08_reserve : C08_reserve_stmt.
+Proof. exact BoxcarFacts.C08_reserve. Qed.
+Theorem C08_count_mono : C08_count_mono_stmt.
+Proof. exact BoxcarFacts.C08_count_mono. Qed.
+Theorem C08_no_phantom : C08_no_phantom_stmt.
+Proof. exact BoxcarFacts.C08_no_phantom. Qed.
+Theorem C08_push_visible : C08_push_visible_stmt.
+Proof. exact BoxcarFacts.C08_push_visible. Qed.
+Theorem C08_stable : C08_stable_stmt.
+Proof. exact BoxcarFacts.C08_stable. Qed.
+Theorem C08_exclusive : C08_exclusive_stmt.
+Proof. exact BoxcarFacts.C08_exclusive. Qed.
+Theorem C08_owned_invisible : C08_owned_invisible_stmt.
+Proof. exact BoxcarFacts.C08_owned_invisible. Qed.
+
+(* non-vacuity: two writers interleaved at yield-point granularity; both items become visible, a
+   reserved but unpublished index is not *)
+Example C08_nonvacuous :
+  let es := [Spawn 2 (PushStart 7 false); Spawn 3 (PushStart 8 false); Spawn 4 (PushStart 9 false);
+             Step 2; Step 3; Step 4; Step 3; Step 2; Step 2; Step 3] in
+  let s := fst (run_events (init_state 0) es) in
+  get s 0 = Some (7, cols_of 7) /\ get s 1 = Some (8, cols_of 8) /\ get s 2 = None /\ inflight s = 3.
+Proof. vm_compute. repeat split; reflexivity. Qed.
+
+Print Assumptions C08_location.
+Print Assumptions C08_location_inj.
+Print Assumptions C08_reserve.
+Print Assumptions C08_count_mono.
+Print Assumptions C08_no_phantom.
+Print Assumptions C08_push_visible.
+Print Assumptions C08_stable.
+Print Assumptions C08_exclusive.
+Print Assumptions C08_owned_invisible.
